@@ -214,6 +214,13 @@ class Executor(Engine):
                     return results
                 st2 = r
             return results + [(st2, None)]
+        uz = self.unzip_sorted_pairs(s, ctx)
+        if uz is not None:
+            a_, b_ = uz
+            st2 = self.commit(st, ctx, results).fork()
+            st2.env[s.targets[0].elts[0].id] = a_
+            st2.env[s.targets[0].elts[1].id] = b_
+            return results + [(st2, None)]
         val = self.ev.ev(s.value, ctx)
         st2 = self.commit(st, ctx, results).fork()
         for tgt in s.targets:
@@ -222,6 +229,41 @@ class Executor(Engine):
                 return results
             st2 = r
         return results + [(st2, None)]
+
+    def unzip_sorted_pairs(self, s, ctx):
+        """a, b = zip(*sorted(zip(A, B), key=lambda x: x[0])): two sequences of the common length; when A is already in non-decreasing
+        order and the lengths agree they ARE A and B (LC-SORT-STABLE); an empty zip raises ValueError (nothing to unpack)"""
+        v = s.value
+        if not (len(s.targets) == 1 and isinstance(s.targets[0], ast.Tuple) and len(s.targets[0].elts) == 2
+                and all(isinstance(e, ast.Name) for e in s.targets[0].elts)
+                and isinstance(v, ast.Call) and isinstance(v.func, ast.Name) and v.func.id == 'zip' and len(v.args) == 1
+                and isinstance(v.args[0], ast.Starred)):
+            return None
+        inner = v.args[0].value
+        if not (isinstance(inner, ast.Call) and isinstance(inner.func, ast.Name) and inner.func.id == 'sorted' and len(inner.args) == 1
+                and len(inner.keywords) == 1 and inner.keywords[0].arg == 'key' and isinstance(inner.keywords[0].value, ast.Lambda)
+                and ast.unparse(inner.keywords[0].value.body) == inner.keywords[0].value.args.args[0].arg + '[0]'):
+            return None
+        z = inner.args[0]
+        if not (isinstance(z, ast.Call) and isinstance(z.func, ast.Name) and z.func.id == 'zip' and len(z.args) == 2):
+            return None
+        A = self.ev.unwrap_opt(self.ev.ev(z.args[0], ctx), ctx)
+        B = self.ev.unwrap_opt(self.ev.ev(z.args[1], ctx), ctx)
+        if not (isinstance(A.ty, TList) and isinstance(B.ty, TList) and is_num(V(A.ty.elem, z3.Select(A.ty.arr(A.t), 0)))):
+            raise OutOfSubset('zip(*sorted(zip(a, b), key=first)) on non-lists')
+        la, lb = A.ty.n(A.t), B.ty.n(B.t)
+        m = z3.If(la <= lb, la, lb)
+        ctx.exc('ValueError', m == 0)
+        ra, rb = fresh('unzipA', A.ty.sort()), fresh('unzipB', B.ty.sort())
+        j, k = z3.Int('j!uz'), z3.Int('k!uz')
+        in_order = z3.ForAll([j, k], z3.Implies(z3.And(0 <= j, j <= k, k < la),
+                                                to_real(V(A.ty.elem, z3.Select(A.ty.arr(A.t), j))) <= to_real(V(A.ty.elem, z3.Select(A.ty.arr(A.t), k)))))
+        ctx.assume(A.ty.n(ra) == m)
+        ctx.assume(B.ty.n(rb) == m)
+        ctx.assume(z3.Implies(z3.And(in_order, la == lb), z3.And(ra == A.t, rb == B.t)))
+        self.libs_used.add('LC-SORT-STABLE: zip(*sorted(zip(a, b), key=first)) gives two sequences of the common length, which ARE a and b when a is '
+                           'already in non-decreasing order and the lengths agree (stable sort); the permutation otherwise is not modelled')
+        return V(A.ty, ra), V(B.ty, rb)
 
     def hint_literal(self, value, target):
         """element type of an empty list/set literal from the contract's `locals`"""
